@@ -56,3 +56,16 @@ Print Assumptions C14_idle_closes_on_silence.
 Theorem C14_idle_not_early : forall d arr t, (t + d <= idle_close d t arr)%N.
 Proof. exact idle_not_early. Qed.
 Print Assumptions C14_idle_not_early.
+
+
+(* ---- tie by translation (gen/SrcGomavlib.v regenerated from the source on every run) ---- the
+   time-outs a node falls back to are constants of the source, independent of one another: reads and
+   writes 10 s, idle expiry 60 s whatever ReadTimeout is, reconnect delay 2 s *)
+From Coq Require Import ZArith.
+From GM Require Import SrcGomavlib SrcNodeTie.
+Theorem C14_source_timeout_defaults :
+  (d_gomavlib_Node_Initialize_ReadTimeout = 10000000000 /\ d_gomavlib_Node_Initialize_WriteTimeout = 10000000000 /\
+   d_gomavlib_Node_Initialize_IdleTimeout = 60000000000 /\ d_gomavlib_Node_Initialize_HeartbeatPeriod = 5000000000 /\
+   v_gomavlib_reconnectPeriod = 2000000000)%Z.
+Proof. exact src_timeout_defaults. Qed.
+Print Assumptions C14_source_timeout_defaults.
